@@ -120,8 +120,9 @@ def s2(ctx, rep):
             ok = False
             for st in n.ast.body:
                 if isinstance(st, ast.Expr) and _is_drop_call(st.value):
+                    from ..engine import flows_into
                     r = kwarg(st.value, "resource", 1)
-                    if r is not None and isinstance(tgt, ast.Name) and tgt.id in {x.id for x in ast.walk(r) if isinstance(x, ast.Name)}:
+                    if r is not None and isinstance(tgt, ast.Name) and flows_into(f, r, lambda y: isinstance(y, ast.Name) and y.id == tgt.id):
                         ok = True
             if ok:
                 a_nodes.add(n.id)
